@@ -325,7 +325,8 @@ RedN(pk) == CASE pk = "interest" -> 15 [] pk = "data" -> 14 [] pk = "cert" -> 12
 \* nested levels: mini = the first 6 letters (both optional certificate fields, unknown critical / non-critical)
 AlphaOf(pk, lvl) == LET A == BodyOf(pk) IN
                     IF lvl >= 2 \/ pk = "name" THEN A
-                    ELSE IF pk \in NestedPks THEN SubSeq(A, 1, IF lvl = 1 THEN 9 ELSE IF pk = "data.meta" THEN 5 ELSE 6)
+                    ELSE IF pk \in NestedPks THEN LET n == IF lvl = 1 THEN 9 ELSE IF pk = "data.meta" THEN 5 ELSE 6
+                                                   IN SubSeq(A, 1, IF n > Len(A) THEN Len(A) ELSE n)     \* (data.meta has fewer than 9 letters)
                     ELSE SubSeq(A, 1, IF lvl = 1 THEN RedN(pk) ELSE MiniN)
 TailOf(pk, lvl) == IF lvl = 0 THEN SubSeq(TailAll(pk), 1, 2) ELSE TailAll(pk)
 
